@@ -5,6 +5,7 @@ package conc
 
 import (
 	"fmt"
+	"os"
 	"sort"
 	"strings"
 
@@ -203,8 +204,50 @@ func C08Scenarios() []sched.Scenario {
 	for _, c := range cs {
 		out = append(out, c.scenario())
 	}
-	out = append(out, txnCommitVsSet(), blockReadVsTxnCommit(false, false), blockReadVsTxnCommit(true, false), blockReadVsTxnCommit(false, true), blockReadVsRewrite(), commitVsForgetAndRemoval(), blockCommitVsTxnCommitIntoIt())
+	out = append(out, txnCommitVsSet(), blockReadVsTxnCommit(false, false), blockReadVsTxnCommit(true, false), blockReadVsTxnCommit(false, true), blockReadVsRewrite(), commitVsForgetAndRemoval(), blockCommitVsTxnCommitIntoIt(), bigSiblingCommits(300))
 	return out
+}
+
+// bigSiblingCommits: the size dimension of a schedule question. Two sibling blocks that each write n keys (n above
+// 256, the batch size used elsewhere in this code base) are committed at the same time: once both commits have
+// returned, every key of each block is found at that block with that block's value (far below every capacity).
+func bigSiblingCommits(n int) sched.Scenario {
+	return sched.Scenario{Name: fmt.Sprintf("S20-big-sibling-commits-%d-keys", n), Doc: fmt.Sprintf("A <- B1, B2 (siblings), each writing %d keys: commit(B1) || commit(B2); afterwards every key at its block", n),
+		Make: func() ([]func(), func() (string, string)) {
+			sc := statecache.NewStateCache()
+			old := map[string]string{}
+			s1, s2 := map[string]string{}, map[string]string{}
+			for i := 0; i < n; i++ {
+				k := fmt.Sprintf("key%d", i)
+				old[k], s1[k], s2[k] = "old", fmt.Sprintf("b1-%d", i), fmt.Sprintf("b2-%d", i)
+			}
+			mkBlock(sc, blk{hash: "A", prev: "", sets: old}).Commit()
+			b1 := mkBlock(sc, blk{hash: "B1", prev: "A", sets: s1})
+			b2 := mkBlock(sc, blk{hash: "B2", prev: "A", sets: s2})
+			bodies := []func(){func() { b1.Commit() }, func() { b2.Commit() }}
+			judge := func() (string, string) {
+				bad, first := 0, ""
+				for i := 0; i < n; i++ {
+					k := fmt.Sprintf("key%d", i)
+					for _, q := range [][2]string{{"B1", s1[k]}, {"B2", s2[k]}, {"A", "old"}} {
+						if got := show(sc.Get(k, q[0])); got != q[1] {
+							bad++
+							if first == "" {
+								first = fmt.Sprintf("after both commits returned, lookup %s@%s = %s; the block wrote %s itself and nothing can have been evicted", k, q[0], got, q[1])
+							}
+						}
+					}
+				}
+				if bad > 0 {
+					// which keys are affected may depend on the code's own map iteration order: outcome and message are
+					// kept free of it, so that the replay-twice gate compares like with like (details go to stderr)
+					fmt.Fprintf(os.Stderr, "  S20 detail: %s (%d of %d lookups wrong)\n", first, bad, 3*n)
+					return "some-keys-wrong", "after both commits returned, some keys written by a committed block are not found with that block's value at that block (nothing can have been evicted); see the S20 detail line for one of them"
+				}
+				return "all-found", ""
+			}
+			return bodies, judge
+		}}
 }
 
 // blockCommitVsTxnCommitIntoIt: block B is being committed while a transaction still commits its write into B.
